@@ -9,6 +9,11 @@ implementation.  spec/hostile contributes
       texts are exported and fed to the functions / environ slots the spec assigns to the family;
   (b) the outcome contract -- Hostile!Table (function -> positions -> documented result signatures)
       and Hostile!Clause, evaluated by TLC (HostileTrace) on every distinct recorded outcome vector.
+Body family (spec/hostile/HostileBody.tla): hostile CONTENT_TYPE texts (grammar: type x boundary parameter x charset
+parameter, plus the family's token sequences / sweeps / pumps) x CONTENT_LENGTH variants x request bodies (urlencoded,
+multipart with hostile part headers, JSON incl. deep nesting), all defined in the spec and exported; function
+"RequestBody" touches every Request attribute plus fresh-request orders (stream.read, get_data, get_json(force), files
+before form, form after the stream was read).  Its violation keys start with "Body<clause>".
 The driver adds seeded random token sequences (longer, and across families) drawn from the exported
 token tables.  Python records type signatures / exception class names only.
 """
@@ -64,6 +69,8 @@ def judge_classes(ctx: Ctx, classes, kind="c07"):
         what = ln["ty"][r["w"] - 1][0] if ln["kd"][r["w"] - 1] != 0 else "|".join(ln["ty"][r["w"] - 1])
         where = ln["fn"] + ("@" + ln["slot"] if ln["fn"] == "Request" else "")
         key = f"{where}:{pos}:{r['clause']}:{what}"
+        if ln["fn"] == "RequestBody":   # body family: its own clause prefix; the CONTENT_LENGTH variant is not part of the key
+            key = f"Body{r['clause']}:{ln['slot'].split('|')[0]}:{pos}:{what}"
         ex = _text(ln["ex"][0])
         if not r["core"]:
             if len(outside) < 40 and not any(o["key"] == key for o in outside):
@@ -77,8 +84,26 @@ def judge_classes(ctx: Ctx, classes, kind="c07"):
             cur["n"] += ln["n"]
     ctx.notes.setdefault("rejected_keys", []).extend(sorted(seen))
     for key, case in sorted(seen.items()):
-        ctx.violation(key, key.split(":")[2], case, kind=kind)
+        ctx.violation(key, key.split(":")[0] if key.startswith("Body") else key.split(":")[2], case, kind=kind)
     return lines[len(sch):]
+
+
+def body_slots(rng, ctype: str, mode: str, quick: bool):
+    """The (body, CONTENT_LENGTH variant) combinations a CONTENT_TYPE text of the body family is run with.
+    quick: one seeded combination (for grammar texts half of the time a body of the kind the text names, exact length);
+    thorough, grammar texts: every body of that kind plus the empty body and three seeded ones, each with
+    CONTENT_LENGTH exact and absent-but-terminated."""
+    low = ctype.lower()
+    kind = "mp" if "multipart" in low else "json" if "json" in low else "url" if "urlencoded" in low else "any"
+    names = sorted(H.BODY_TABLE)
+    same = [n for n in names if H.BODY_TABLE[n][0] == kind] or names
+    cls = sorted(H.BODY_TABLE[names[0]][3])
+    if quick or mode != "gram":
+        if mode == "gram" and rng.random() < 0.5:
+            return [f"{rng.choice(same)}|exact"]
+        return [f"{rng.choice(names)}|{rng.choice(cls)}"]
+    chosen = sorted(set(same) | {"empty"} | set(rng.sample(names, 3)))
+    return [f"{n}|{c}" for n in chosen for c in ("exact", "terminated")]
 
 
 def run(ctx: Ctx):
@@ -94,8 +119,12 @@ def run(ctx: Ctx):
         "domain of client-controlled text: code points 0x20-0x7E and 0x80-0xFF (RFC 9110 field-value: SP, VCHAR, obs-text); "
         "C0 controls (incl. HTAB, CR, LF) and DEL are outside",
         "server-controlled environ variables are well formed (SERVER_NAME srv.test, SERVER_PORT 8080, SCRIPT_NAME /app, wsgi.*); "
-        "PATH_INFO is '/' + text; the request body is a fixed small urlencoded / multipart / JSON body (the body is not part of "
-        "the property's quantifier)",
+        "PATH_INFO is '/' + text; for the header families the request body is a fixed small urlencoded / multipart / JSON body",
+        "body family: bodies, CONTENT_LENGTH variants (absent, absent+wsgi.input_terminated, exact, 0, -1, abc, 30 nines, superscript "
+        "digits, spaces, '+n', n-1, n+1, empty, 'n.0', hex) and the CONTENT_TYPE grammar are those of HostileBody.tla; default limits "
+        "(max_content_length None, max_form_memory_size 500 kB, max_form_parts 1000); form / files / values of a malformed body are "
+        "empty by design (silent parser), a 4xx (413, 400 ClientDisconnected, 415) is accepted everywhere; FileStorage attributes are "
+        "recorded but not judged as verdicts",
         "offers passed to membership / best_match are valid (an invalid mimetype *offer* raises a documented ValueError for the developer)",
         "non-termination is observed as: one call plus all uses of its result on a text of <= ~8 KiB does not finish within "
         f"{H.BUDGET_S} s of CPU time (ITIMER_VIRTUAL, so machine load cannot cause a false alarm)",
@@ -110,6 +139,8 @@ def run(ctx: Ctx):
                 continue
             if "table" in v:
                 tables[v["table"]] = {"toks": [_text(t) for t in v["toks"]], "fns": v["fns"], "slots": v["slots"]}
+                if "bodies" in v:
+                    H.set_body_table(v["bodies"])
             elif "fam" in v:
                 texts.setdefault((v["fam"], v["mode"]), {})[_text(v["s"])] = v["len"]
     if not tables or not texts:
@@ -125,6 +156,11 @@ def run(ctx: Ctx):
         for s, ntok in sorted(ss.items()):
             for fn in tb["fns"]:
                 items.append((fn, "-", s))
+            if fam == "body":
+                items += [("RequestBody", sl, s) for sl in body_slots(rng, s, mode, q)]
+                if mode == "seq" and ntok <= 1:
+                    trivial.add(s)
+                continue
             slots = tb["slots"]
             if mode == "seq" and ntok >= 3:
                 slots = rng.sample(slots, 1)
@@ -140,6 +176,11 @@ def run(ctx: Ctx):
                 items.append(("Request", sl, s))
             if mode == "seq" and ntok <= 1:
                 trivial.add(s)
+    # every body x every CONTENT_LENGTH variant under the content types the body is normally sent with
+    for bn, (_kind, _b, canon, cls) in sorted(H.BODY_TABLE.items()):
+        for cl in sorted(cls):
+            for ct in (canon, canon + "; charset=rot13", "multipart/form-data", ""):
+                items.append(("RequestBody", f"{bn}|{cl}", ct))
     # 3. seeded random: longer sequences within a family, and texts of any family fed to any function / slot
     fams = sorted(tables)
     all_fns = [fn for fn in H.PURE_FNS]
@@ -158,6 +199,9 @@ def run(ctx: Ctx):
         else:
             for fn in tb["fns"]:
                 items.append((fn, "-", s))
+            if fam == "body":
+                items += [("RequestBody", sl, s) for sl in body_slots(rng, s, "seq", True)]
+                continue
             sl = rng.choice(tb["slots"])
             items.append(("Request", sl, s))
     items = sorted(set(items))
@@ -166,10 +210,14 @@ def run(ctx: Ctx):
     for fn, sl, _ in items:
         k = fn if fn != "Request" else "Request@" + sl
         ctx.notes["calls_by_function"][k] = ctx.notes["calls_by_function"].get(k, 0) + 1
+    t_gen = ctx.elapsed()
     classes = execute(ctx, items)
+    t_run = ctx.elapsed()
     ctx.nontrivial = range(sum(1 for it in items if it[2] not in trivial))   # only its size is reported (items are distinct)
     ctx.notes["distinct_outcome_vectors"] = len(classes)
     lines = judge_classes(ctx, classes)
+    ctx.notes["phase_s"] = {"tlc_enumeration_and_items": round(t_gen, 1), "real_code": round(t_run - t_gen, 1),
+                            "tlc_judge": round(ctx.elapsed() - t_run, 1)}
     for ln in lines[:: max(1, len(lines) // 6)]:
         ctx.sample({"fn": ln["fn"], "slot": ln["slot"], "text": _text(ln["ex"][0])[:80], "calls_with_this_outcome": ln["n"],
                     "outcome": [[n, k, t] for n, k, t in zip(_names(ln["fn"]), ln["kd"], ln["ty"]) if k != 3][:6]})
@@ -177,6 +225,10 @@ def run(ctx: Ctx):
 
 def replay(ctx: Ctx, data):
     c = data["case"]
+    if c["fn"] == "RequestBody":
+        for v in ctx.export(AREA, "MCHostile", "MCX_table", count_states=False):
+            if isinstance(v, dict) and "bodies" in v:
+                H.set_body_table(v["bodies"])
     classes = H.run_batch([(c["fn"], c["slot"], c["s"])])
     ctx.count(1)
     ctx.sample(c)
